@@ -36,7 +36,8 @@ BlockTab ==
                 D("Method", <<"foo">>, "method foo", FALSE, "", ""), D("Description", <<>>, "", FALSE, "d2", ""),
                   D("Params", <<>>, "", FALSE, "obj", ""), D("Result", <<>>, "", FALSE, "arr", "") >>,
    tagged|-> << D("GET", <<"pci">>, "", FALSE, "", ""), D("Tags", <<"@g1", "@g_2">>, "", FALSE, "", ""),
-                D("OperationId", <<"op1">>, "", FALSE, "", ""), D("RESP", <<"@t1">>, "", FALSE, "", "200") >>, \* needs tag1 tag2 t1
+                D("OperationId", <<"op1">>, "", FALSE, "", ""), D("RESP", <<"@t1">>, "", FALSE, "", "200"),
+                D("RESP", <<"[@t1]">>, "list", FALSE, "", "206") >>, \* needs tag1 tag2 t1
    urlT  |-> << D("URL", <<"paib">>, "", FALSE, "", ""), D("Tags", <<"@g1">>, "", FALSE, "", ""),
                 D("GET", <<>>, "", FALSE, "", ""), D("RESP", <<"any">>, "", FALSE, "", "200"),
                 D("POST", <<>>, "", FALSE, "", ""), D("Tags", <<"@g_2">>, "", FALSE, "", ""), D("RESP", <<"any">>, "", FALSE, "", "200") >>, \* URL-level and method-level Tags
